@@ -779,6 +779,14 @@ class ModelWorld(BaseWorld):
         invalid = None
         if rng.random() < p_inv:
             invalid = rng.choice(['type', 'max', 'repeat', 'duplicate', 'nonmember'])
+            if invalid in ('type', 'max') and len(ref.assoc_order) > 8:
+                # the generated classes put repr() of the offending objects into the error
+                # message, and repr() of an asset walks everything linked to it: in a densely
+                # linked model one refusal takes minutes (measured: 150 s with 20 associations).
+                # A matter of speed, not of any property here - such refusals are only
+                # provoked while the model is small.
+                invalid = rng.choice(['repeat', 'duplicate', 'nonmember'])
+                self.count('probe:slow_refusal_avoided_in_dense_model')
 
         def pick(cands, mx):
             k = rng.choice([1, 1, 1, 2, 2, 3])
